@@ -251,6 +251,11 @@ def gen(rng: random.Random, tier: str, index: int) -> dict:
             align = 4 if fmt == "cdda" else 2
             sector = {"akai": 8192, "akai2352": 2048, "roland": 9216, "cdda": 2352}[fmt]
             sc["clients"].append({"k": "R", "target": t["path"], "ops": _reader_script(rng, t["len"], align, sector, t.get("phase", 0))})
+    if sc.get("victim"):
+        # a stereo export of the victim's partner reads the victim too
+        for cl in sc["clients"]:
+            if cl["k"] == "T" and (_pair_partner(sc, cl["target"]) or (None,))[0] == sc["victim"]:
+                cl["lenient"] = True
     if fmt == "roland" and rng.random() < 0.3 and targets:
         t = targets[0]
         sc["clients"].append({"k": "R", "target": t["path"], "ops": _reader_script(rng, t["len"], 2, 9216), "second_view": True})
